@@ -122,6 +122,9 @@ def Fail(x: int) -> int:
 
 @workflow.define
 def Chain2(x: int) -> int:
+    # the constructor is the "body" of a workflow job: it runs when the workflow is
+    # expanded for execution, not on a cache hit
+    _rt.get().event("wf-body", f"Chain2|{x!r}")
     a = workflow.add(Add(x=x, k=1), name="a")
     b = workflow.add(Slow(x=a.out, npoints=2), name="b")
     return b.out
